@@ -3008,3 +3008,25 @@ RECIPES += (
     + _pair(_THRU_CARD % 1, _THRU_CARD % 2, _THRU_ALL, ["C13-R4"],
             "_wt_with_thru: the fields of the pending card in a record with methods that rebind them, the line starter kept in a field", "the element after a run is skipped")
 )
+
+
+# ====================================================================================================================== last pass (round 4, seed K)
+# the common length of vecwrite's arguments, decided on a finite world of argument lengths (verifier/c13_len.py): siblings of the flattened
+# `if curlen > 1 and length > 1: ...; length = curlen` (a one-element list after a vector resets the row count) and correct variants of
+# the same loop.  The neutral forms were run through pyyeti/tests/test_writer.py, the doctests of writer.py and a product of
+# scalar / 1 / n / m argument lengths (2-3 arguments, with and without a slice object) against the unchanged function.
+RECIPES += [
+    ("C13", "break", ["C13-R2"], W, "            if curlen > 1:\n", "            if curlen > 1 or length > 1:\n",
+     "vecwrite: the length checks are entered for every sized argument once a vector was seen -- a one-element list after a vector is a ValueError "
+     "(wtgrids with several grids and cd=[7] cannot be written)"),
+    ("C13", "break", ["C13-R2"], W, "                    elif curlen != length:\n", "                    elif curlen < length:\n",
+     "vecwrite: the mismatch test is one-sided -- a longer second vector raises the row count and the first vector is indexed past its end"),
+    ("C13", "break", ["C13-R2"], W, "    length = 1\n    fncs = []\n", "    length = 0\n    fncs = []\n",
+     "vecwrite: the row count starts at 0 -- a call with scalars only (a single GRID with plain numbers and a one-row xyz) writes nothing"),
+    ("C13", "neutral", [], W, "                length = curlen\n", "                length = max(length, curlen)\n",
+     "vecwrite: the common length as the maximum of what was seen (after the checks the two are equal, or the old one is 1)"),
+    ("C13", "neutral", [], W, "                length = curlen\n", "                if length == 1:\n                    length = curlen\n",
+     "vecwrite: the first vector fixes the common length (later ones were checked to give the same rows)"),
+    ("C13", "neutral", [], W, "                curlen = 1\n", "                curlen = len(arg)\n",
+     "vecwrite: the length of a one-element argument taken from the argument (it is 1 on that branch)"),
+]
